@@ -63,7 +63,7 @@ impl GenCfg {
                 (1, vec![Some(11), Some(20), Some(50)]),
             ],
             n_trees: vec![(4, vec![None]), (5, vec![Some(1), Some(2), Some(3), Some(4)]), (1, vec![Some(7), Some(12), Some(20)])],
-            avail_mem: vec![(8, vec![None]), (1, vec![Some(0), Some(1), Some(4096), Some(3 * 4096), Some(1 << 40)])],
+            avail_mem: vec![(8, vec![None]), (1, vec![Some(0), Some(1), Some(4096), Some(3 * 4096), Some(1 << 40), Some(usize::MAX)])],
             abort_pct: 8,
             build_pct: 92,
             constant_split_after: false,
